@@ -4,6 +4,7 @@ import logging
 import voluptuous as vol
 
 from .const import SYSTEM_CHILD_ID, get_const
+from .validation import SCHEMA_LOCK
 
 _LOGGER = logging.getLogger(__name__)
 
@@ -165,5 +166,6 @@ class Message:
             "payload": valid_payload,
             "gateway": None,
         }
-        schema = vol.Schema(vol.Object(attrs, cls=self.__class__))
-        return schema(self)
+        with SCHEMA_LOCK:
+            schema = vol.Schema(vol.Object(attrs, cls=self.__class__))
+            return schema(self)
